@@ -186,15 +186,25 @@ func streamRListen(c *ctx) {
 	r := c.r
 	for n := 0; n < 6*c.scale; n++ {
 		port := freePort()
+		// every second client is built with the debug flag on (logging only: nothing observable may depend on it)
 		u := uhppote.NewUHPPOTE(types.BindAddrFrom(netip.MustParseAddr("127.0.0.1"), 0), types.BroadcastAddr{},
-			types.ListenAddrFrom(netip.MustParseAddr("127.0.0.1"), uint16(port)), T, nil, false)
+			types.ListenAddrFrom(netip.MustParseAddr("127.0.0.1"), uint16(port)), T, nil, n%2 == 1)
 		res := []string{}
 		for cycle := 0; cycle < 3; cycle++ { // stop and re-bind immediately
 			var mu sync.Mutex
 			evs, errs, conn := []uint32{}, 0, 0
+			slowFirst := cycle == 1 // the application is busy with the first event while the others arrive
 			l := &cbListener{
 				onConnected: func() { mu.Lock(); conn++; mu.Unlock() },
-				onEvent:     func(s *types.Status) { mu.Lock(); evs = append(evs, s.Event.Index); mu.Unlock() },
+				onEvent: func(s *types.Status) {
+					mu.Lock()
+					first := len(evs) == 0
+					evs = append(evs, s.Event.Index)
+					mu.Unlock()
+					if slowFirst && first {
+						time.Sleep(60 * time.Millisecond)
+					}
+				},
 				onError:     func(error) { mu.Lock(); errs++; mu.Unlock() },
 			}
 			q := make(chan os.Signal, 1)
@@ -288,7 +298,7 @@ func streamRListen(c *ctx) {
 		}
 		c.w.Emit(fmt.Sprintf("rlisten port=%d cycles=3", port), strings.Join(res, " "), "rlisten")
 	}
-	c.w.Notes = append(c.w.Notes, "rlisten stream: the real UDP listener on a loopback port, 3 start / stop cycles with immediate re-bind; per cycle 3..8 datagrams from two senders (valid, v6.62, truncated, valid event followed by 1 or 64 more bytes); events must arrive once each in order, one error per malformed datagram, connected once, Listen returns nil")
+	c.w.Notes = append(c.w.Notes, "rlisten stream: the real UDP listener on a loopback port, 3 start / stop cycles with immediate re-bind; per cycle 3..8 datagrams from two senders (valid, v6.62, truncated, valid event followed by 1 or 64 more bytes); events must arrive once each in order (in the second cycle while the callback is still busy with the first one), one error per malformed datagram, connected once, Listen returns nil; every second client with the debug flag on")
 	_ = cases.Hex
 }
 
@@ -326,6 +336,13 @@ func streamRDiscover(c *ctx) {
 			plan = []planned{{5 * time.Millisecond, 6000001, "valid"}, {12 * time.Millisecond, 6000002, "long"}, {20 * time.Millisecond, 6000003, "long64"}, {28 * time.Millisecond, 6000002, "valid"},
 				{36 * time.Millisecond, 6000001, "empty"}, {44 * time.Millisecond, 6000003, "valid"}}
 		}
+		if n == 1 { // every run: 300 malformed datagrams within 60 ms, then two valid replies well inside the window
+			plan = []planned{}
+			for i := 0; i < 300; i++ {
+				plan = append(plan, planned{5*time.Millisecond + time.Duration(i)*200*time.Microsecond, uint32(6000001 + i%3), []string{"short", "wrong-code", "long", "bad-bcd"}[i%4]})
+			}
+			plan = append(plan, planned{90 * time.Millisecond, 6000001, "valid"}, planned{100 * time.Millisecond, 6000002, "valid"})
+		}
 		sort.SliceStable(plan, func(i, j int) bool { return plan[i].delay < plan[j].delay })
 		rs := newUDPResponder("127.0.0.1", func(req []byte) []step {
 			out := []step{}
@@ -353,7 +370,7 @@ func streamRDiscover(c *ctx) {
 		})
 		ap := netip.MustParseAddrPort(rs.addr())
 		u := uhppote.NewUHPPOTE(types.BindAddrFrom(netip.MustParseAddr("127.0.0.1"), 0), types.BroadcastAddrFrom(ap.Addr(), ap.Port()),
-			types.ListenAddrFrom(netip.MustParseAddr("127.0.0.1"), 60001), T, nil, false)
+			types.ListenAddrFrom(netip.MustParseAddr("127.0.0.1"), 60001), T, nil, n%2 == 1)
 		t0 := time.Now()
 		devs, err := u.GetDevices()
 		el := time.Since(t0)
@@ -379,5 +396,5 @@ func streamRDiscover(c *ctx) {
 		c.w.Emit(fmt.Sprintf("rdiscover T=%d | %s", T.Milliseconds(), strings.Join(ps, " ")), fmt.Sprintf("%s [%s] %s", res, strings.Join(got, ","), timeClass(el)), "rdiscover")
 		_ = want
 	}
-	c.w.Notes = append(c.w.Notes, "rdiscover stream: GetDevices through the real driver against a responder that answers with 0..5 datagrams (valid / truncated / over-long with a valid 64-byte prefix / wrong function code / non-BCD date; duplicates of 3 serial numbers) at 3..100 ms or after the window; the call lasts one timeout")
+	c.w.Notes = append(c.w.Notes, "rdiscover stream: GetDevices through the real driver against a responder that answers with 0..5 datagrams (valid / truncated / over-long with a valid 64-byte prefix / wrong function code / non-BCD date; duplicates of 3 serial numbers) at 3..100 ms or after the window, once 300 malformed datagrams followed by two valid replies; every second client with the debug flag on; the call lasts one timeout")
 }
